@@ -508,6 +508,42 @@ def runC16 : P Verdict := do
   pure { corr, oracle := orc, nontriv := vdb != 0.0,
          cls := s!"stage{min c.stage 1}:{if vdb < 0.0 then "neg" else "pos"}", bitsOk := bo, bitsAll := ba }
 
+/-- C11, rendering clause: a frame is rendered with noise excitation iff it carries the no-data marker; a voiced frame —
+    whatever its log-F0, also below the 20 Hz floor or above the ceiling, where the period is clamped — is rendered with
+    pulses. Zero spectrum (identity filter, unit gain) and no low-pass stream, so the samples *are* the excitation: a pulse
+    frame holds zeros and a few positive impulses, a noise frame Gaussian samples of both signs. -/
+def runC11r : P Verdict := do
+  let c ← parseCase
+  let w ← parseWave
+  let m := runModel c
+  let (corr, bo, ba) := diffWave 1e-9 m w
+  let nodata : Float := -1.0e10
+  let orc := match w with
+    | .panic s => some s!"panicked at {s}"
+    | .ok ws =>
+      if ws.length != c.fperiod * c.frames.length then some "synthesize did not write fperiod samples per frame" else
+      let arr := ws.toArray
+      let bad := (List.range c.frames.length).find? fun k =>
+        let lf0 := (c.frames.getD k (0.0, [], [])).1
+        let seg := (List.range c.fperiod).map fun i => arr.getD (k * c.fperiod + i) 0.0
+        let nonzero := (seg.filter fun x => x != 0.0).length
+        let neg := (seg.filter fun x => x < 0.0).length
+        if lf0 == nodata then
+          -- noise: practically every sample non-zero, both signs present
+          c.fperiod ≥ 16 && (nonzero * 10 < c.fperiod * 9 || neg == 0)
+        else
+          -- pulses: impulses are positive, everything else is exactly zero (at the 20 kHz ceiling and a low sampling rate the
+          -- period can be below one sample, so "mostly zeros" is not part of the statement)
+          neg > 0
+      bad.map fun k =>
+        let lf0 := (c.frames.getD k (0.0, [], [])).1
+        if lf0 == nodata then s!"frame {k} carries no F0 but is not rendered with noise excitation"
+        else s!"frame {k} is voiced (log-F0 {lf0}) but is rendered with noise, not with pulses"
+  let lo := c.frames.any fun f => f.1 != nodata && f.1 < Float.log 20.0
+  pure { corr, oracle := orc, nontriv := c.frames.length > 0,
+         cls := s!"C11r:{if lo then "below-floor" else "in-range"}:{if c.frames.any (fun f => f.1 == nodata) then "mixed" else "voiced"}",
+         bitsOk := bo, bitsAll := ba }
+
 def run : P Verdict := do
   let mode ← next
   match mode with
@@ -519,6 +555,7 @@ def run : P Verdict := do
   | "C14" => runC14
   | "C14m" => runC14m
   | "C16" => runC16
+  | "C11r" => runC11r
   | _ => throw s!"unknown voc mode {mode}"
 
 end Drv.Voc
